@@ -94,7 +94,9 @@ func c10Scenario(c *choice.Ctx, rep *report.R, alpha []c10Rule, maxLen int, sub 
 		}
 	}
 	cacheOn := c.Choose(2, "cache") == 1
-	desc := fmt.Sprintf("rules=%v cache=%v", rules, cacheOn)
+	// one upstream may be broken (every exchange fails): the query is then answered SERVFAIL, it is not handed to the next rule
+	failing := []string{"", "u1", "u2"}[c.Choose(3, "failing-upstream")]
+	desc := fmt.Sprintf("rules=%v cache=%v failing-upstream=%q", rules, cacheOn, failing)
 	fail := func(sig, msg string) {
 		rep.Violate("C10:"+sig, msg+"\n  "+desc, map[string]any{"Choices": c.Choices()})
 	}
@@ -116,9 +118,10 @@ func c10Scenario(c *choice.Ctx, rep *report.R, alpha []c10Rule, maxLen int, sub 
 	}
 	defer v.Close()
 	serial := byte(0)
-	for _, u := range v.ups {
+	for tag, u := range v.ups {
+		broken := tag == failing
 		u.Auto = func(q *upQuery) *upResult {
-			if q.Msg == nil {
+			if q.Msg == nil || broken {
 				return &upResult{err: errScripted}
 			}
 			serial++
@@ -143,6 +146,9 @@ func c10Scenario(c *choice.Ctx, rep *report.R, alpha []c10Rule, maxLen int, sub 
 			}
 			r := rs[nResp]
 			nResp++
+			if wantUp != "" && wantUp == failing {
+				wantRc = 2
+			}
 			if r.RCode() != wantRc {
 				fail("wrong-outcome", fmt.Sprintf("query %s/%d/%d: rcode %s, reference %s (upstream %q)", q.name, q.class, q.typ, rcodeName(r.RCode()), rcodeName(wantRc), wantUp))
 			}
@@ -151,7 +157,7 @@ func c10Scenario(c *choice.Ctx, rep *report.R, alpha []c10Rule, maxLen int, sub 
 				newQs := qs[seen[tag]:]
 				seen[tag] = len(qs)
 				want := 0
-				if tag == wantUp && !(cacheOn && round == 1) {
+				if tag == wantUp && !(cacheOn && round == 1 && tag != failing) {
 					want = 1
 				}
 				if len(newQs) != want {
@@ -171,7 +177,7 @@ func c10Scenario(c *choice.Ctx, rep *report.R, alpha []c10Rule, maxLen int, sub 
 					}
 				}
 			}
-			if wantUp != "" && r.RCode() == 0 {
+			if wantUp != "" && wantUp != failing && r.RCode() == 0 {
 				k, _, ok := env.AnswerKey(r)
 				if !ok || k != env.KeyIP(q.name, q.class, q.typ) {
 					fail("wrong-answer", fmt.Sprintf("answer for %s/%d/%d is not the selected upstream's answer to that question", q.name, q.class, q.typ))
@@ -207,8 +213,8 @@ func TestVerifC10(t *testing.T) {
 		}
 	}
 	rep.Rule = fmt.Sprintf("E3: all rule lists of length 0..%d over the full %d-rule alphabet {domain none/A/B} x reverse x reject {0,2,3,5} x forward {none,u1,u2} (length-3 lists over a %d-rule sub-alphabet), domain sets A,B share an entry and B is split over two files, "+
-		"cache off/on, loaded by the real run(); 8 queries (names in A only / B only / both / neither, mixed case; A/IN and TXT/CH) sent twice through the tcp seam; upstreams are recording auto-responders; "+
-		"oracle vs reference interpreter: client rcode, exactly the selected upstream is contacted exactly once (never on the second round with the cache on), forwarded question is lower-cased with same class/type and RD=1, answer is that upstream's answer",
+		"cache off/on, no upstream / u1 / u2 failing every exchange, loaded by the real run(); 8 queries (names in A only / B only / both / neither, mixed case; A/IN and TXT/CH) sent twice through the tcp seam; upstreams are recording auto-responders; "+
+		"oracle vs reference interpreter: client rcode (SERVFAIL when the selected upstream fails), exactly the selected upstream is contacted exactly once (never on the second round with the cache on), forwarded question is lower-cased with same class/type and RD=1, answer is that upstream's answer",
 		maxLen, len(alpha), len(sub))
 	st := runExplore(t, rep, -1, func(c *choice.Ctx) { c10Scenario(c, rep, alpha, maxLen, sub) })
 	rep.Count("executions", st.Executions)
